@@ -255,6 +255,17 @@ def decorate(ctx, geo, desc):
     if rng.random() < 0.3:
         geo.atmosphere_volume, geo.atmosphere_connection = rng.choice([1e20, 1e25, 1.0]), rng.choice([1e-6, 0.5, 10.0])
     desc['header'] = [geo.permeability_angle, geo.gdcx, geo.gdcy, geo.atmosphere_volume, geo.atmosphere_connection]
+    if rng.random() < 0.3 and geo.num_layers > 2:
+        # layer centres as a geometry file may give them: anywhere inside the layer, not necessarily half-way up (the
+        # centre of a full block is its layer's centre: distances to the faces above and below then differ)
+        fr = {}
+        for lay in geo.layerlist[1:]:
+            if rng.random() < 0.6:
+                f = rng.choice([0.25, 0.4, 0.6, 0.75])
+                lay.centre = lay.bottom + f * (lay.top - lay.bottom)
+                fr[lay.name] = f
+        desc['layer_centres_off_middle'] = fr
+        ctx.count('geometries_with_layer_centres_off_middle')
     if rng.random() < 0.3:
         import numpy as np
         n = 0
